@@ -12,6 +12,7 @@ R9.8  compare-only generation compares every directory it would write: the clien
 R9.6  compare-only generation sees the shared core's exception registry (seeded read-only from the real core)
 R9.7  the two generation branches are siblings: same emitter sequence, each emit once; emit-time renaming of
       IR names is idempotent (records and re-tests the final name)
+R9.11 the two operands of every relative-path computation in RenderContext are normalised the same way (both lexical or both symlink-resolved)
 R9.10 compare-only generation creates the ancestor __init__.py files that direct generation creates (same package structure for the post-processor)
 """
 from __future__ import annotations
@@ -363,6 +364,7 @@ def run(repo: Repo, rep: Report, tier: str) -> None:
                       "package, the post-processor groups `from apis.client...` differently, and an immediate re-run over an unchanged nested package fails with "
                       "'Differences found'", gen.loc(sw))
 
+    rule_relpath_operands_agree(repo, rep, "R9.11")
     # R9.9 output is independent of prior runs: the shared-core registry entry of a client is overwritten with its current codes and the
     # aliases are regenerated from the union (rules of C11/R11.1)
     from rules._reuse import reuse
@@ -914,3 +916,72 @@ def _idempotent_renames(repo: Repo, rep: Report) -> None:
                           "and two operations can end up with the same method name (" + how + ")", loc)
 
     _dedup_site(fn, "operation methods", "seen method names", _R())
+
+
+# ------------------------------------------------------------------------------------------------ R9.11 both operands of a relative path are normalised alike
+def rule_relpath_operands_agree(repo: Repo, rep, rule: str = "R9.11") -> None:
+    """Relative import paths are computed with os.path.relpath / Path.relative_to between the file being rendered and a package root.
+    When one operand is made *physical* (`Path.resolve()` / `realpath`: symlinks followed) and the other only *lexical* (`abspath`),
+    the two need not share a prefix: under a temporary directory reached through a symlink (compare-only generation renders into
+    tempfile.TemporaryDirectory(); /tmp is a symlink on macOS) the result climbs out of the package and the rendered import differs from
+    the one direct generation wrote - a re-run over unchanged input reports differences.  For every such call in RenderContext whose
+    operands can both be traced to a normalising call, the two normalisers are of the same kind."""
+    rc = repo.module("context.render_context")
+    n_pairs = 0
+    for q, fn in rc.functions.items():
+        L = Locals(fn.node)
+
+        def kind(e: ast.AST, depth: int = 0) -> Optional[str]:
+            if depth > 8:
+                return None
+            if isinstance(e, ast.Call):
+                d = dotted(e.func) or ""
+                if d in ("os.path.abspath", "abspath", "os.path.normpath"):
+                    return "lexical (abspath)"
+                if d in ("os.path.realpath", "realpath"):
+                    return "physical (resolve)"
+                if isinstance(e.func, ast.Attribute) and e.func.attr == "resolve":
+                    return "physical (resolve)"
+                if isinstance(e.func, ast.Attribute) and e.func.attr == "absolute":
+                    return "lexical (abspath)"
+                if d in ("str", "os.fspath", "Path", "pathlib.Path", "os.path.dirname", "dirname") and e.args:
+                    return kind(e.args[0], depth + 1)
+                if d in ("os.path.join", "join") and e.args:
+                    return kind(e.args[0], depth + 1)
+                if isinstance(e.func, ast.Attribute) and e.func.attr in ("joinpath", "with_suffix", "with_name"):
+                    return kind(e.func.value, depth + 1)
+                return None
+            if isinstance(e, ast.Attribute) and e.attr in ("parent",):
+                return kind(e.value, depth + 1)
+            if isinstance(e, ast.BinOp) and isinstance(e.op, (ast.Div, ast.Add)):
+                return kind(e.left, depth + 1)
+            if isinstance(e, ast.Name):
+                ds = [v for k, v, _ in L.defs.get(e.id, []) if k != "param" and v is not None]
+                ks = {kind(v, depth + 1) for v in ds}
+                return ks.pop() if len(ks) == 1 else None
+            return None
+
+        for c in calls_in(fn.node):
+            d = dotted(c.func) or ""
+            if d in ("os.path.relpath", "relpath") and c.args:
+                a = c.args[0]
+                b = c.args[1] if len(c.args) > 1 else next((k.value for k in c.keywords if k.arg == "start"), None)
+            elif isinstance(c.func, ast.Attribute) and c.func.attr in ("relative_to", "is_relative_to") and c.args:
+                a, b = c.func.value, c.args[0]
+            else:
+                continue
+            if b is None:
+                continue
+            ka, kb = kind(a), kind(b)
+            if ka is None or kb is None:
+                continue
+            n_pairs += 1
+            sub = f"{rc.relpath}:{q} `{norm(c)[:60]}`"
+            if ka == kb:
+                rep.ok(rule, sub, f"both operands are {ka}", fn.loc(c))
+            else:
+                rep.violation(rule, sub, f"{fn.fq}|relpath-mixed-normalisation|{norm(a)[:20]}|{norm(b)[:20]}",
+                              f"`{norm(a)[:40]}` is {ka} but `{norm(b)[:40]}` is {kb}: below a directory reached through a symlink (the temporary tree of compare-only "
+                              "generation) the relative path leaves the package, the rendered import differs from direct generation and an unchanged output is reported as different",
+                              fn.loc(c))
+    rep.require(n_pairs >= 3, f"{rule}: only {n_pairs} relative-path computations with traceable operands found in RenderContext (floor 3)")
